@@ -1696,6 +1696,536 @@ static void large_case(uint64_t c, vf_rng *r)
     if (!is_buf) { b_die(&G[1], r); }
 }
 
+/* =====================================================================================================
+ * WIDE-ELEMENT case class (cases with c % WIDE_MOD == WIDE_RES).  Motivated by seeded change C04-I.
+ *
+ * The element width is an input of every operation (the library moves, copies and rotates elements it knows only by their
+ * size), and the two other case classes stop at 33 bytes.  Here the width is far beyond any plausible internal scratch area or
+ * block size: 100 .. 70001 bytes, every power of two 2^10 .. 2^16 with its neighbours, and random widths.  For one width, three
+ * containers in turn - a_buf from a_buf_new, a_buf constructed in an exact-size caller block, a_vec (new or ctor) - hold about
+ * a dozen elements and run a random history of push_back / push_fore / insert / pull_back / pull_fore / remove / store / erase
+ * (vector: whole-vector swap with a partner of another width, worked on under the other handle, swapped back).  Before every
+ * removal the capacity state is forced (exactly full, num == mem / spare slot): both are separate code paths.  The fixed
+ * buffer is created exactly full-sized for its dozen elements, so pushes into it are refused about half of the time.
+ * Model of its own: 32-bit ids; EVERY byte of an element is a pseudo-random function of (id, byte position), so a chunk of an
+ * element that is moved, repeated, dropped or exchanged with another chunk is seen whatever the chunk size.  After every call:
+ * the returned pointer (slot of the new element; removed element owned, on an element boundary, past the live range and
+ * byte-for-byte the removed element, as vec.h / buf.h document for remove and pull), element size, count <= capacity, count,
+ * and every byte of every remaining element.  Library blocks are exact-size heap blocks (ASan), the store source too.
+ * Violation keys: <kind>_<op>/<clause>/wide.
+ */
+#define WIDE_MOD_QUICK 211
+#define WIDE_MOD_THOROUGH 2999
+#define WIDE_RES 30 /* no case below 6000 is also a large case */
+#define WMAXE 48    /* model capacity (elements) */
+
+typedef struct wide
+{
+    seq *h;             /* library handle (kind, object pointers); the small array model inside it is not used */
+    size_t siz, num;
+    uint32_t id[WMAXE]; /* model: one id per element */
+    unsigned char *img; /* exact-size scratch: the image of one element */
+} wide;
+
+static int wide_sampled;
+static int wide_dead; /* a clause failed: the object is not driven further */
+static wide W[2];
+static seq WS[2];
+
+#define WFAIL(clause, ...)                                                 \
+    do {                                                                   \
+        char key_[112];                                                    \
+        snprintf(key_, sizeof(key_), "%s_%s/%s/wide", KN, opname, clause); \
+        vf_viol(key_, __VA_ARGS__);                                        \
+        wide_dead = 1;                                                     \
+    } while (0)
+
+/* element bytes of an id: byte j is a function of (id, j) */
+static void w_render(size_t z, uint32_t id, unsigned char *out)
+{
+    uint64_t const base = b_mix((uint64_t)id + 0x9E3779B97F4A7C15ULL);
+    for (size_t j = 0; j < z; j += 8)
+    {
+        uint64_t const w = b_mix(base + j);
+        memcpy(out + j, &w, z - j < 8 ? z - j : 8);
+    }
+}
+/* offset of the first byte at p that is not the byte of element id, z if none */
+static size_t w_diff(wide const *g, unsigned char const *p, uint32_t id)
+{
+    size_t const z = g->siz;
+    size_t k = 0;
+    w_render(z, id, g->img);
+    if (memcmp(p, g->img, z) == 0) { return z; }
+    while (p[k] == g->img[k]) { ++k; }
+    return k;
+}
+static void wcell(char const *op, wide const *g, int cls)
+{
+    char b[96];
+    int lg = 0;
+    for (size_t n = g->siz; n > 1; n >>= 1) { ++lg; }
+    snprintf(b, sizeof(b), "W|%s|%s|w%d|c%d", KN, op, lg, cls);
+    vf_distinct_str(b);
+}
+
+/* complete comparison with the model */
+static int w_check(wide *g)
+{
+    seq *s = g->h;
+    size_t n, m, z;
+    unsigned char *p;
+    if (wide_dead) { return 0; }
+    VF_COUNT("wide-state-compared-with-model");
+    n = L_num(s), m = L_mem(s), z = L_siz(s), p = L_ptr(s);
+    if (z != g->siz) { WFAIL("element-size", "library element size %zu, model %zu", z, g->siz); return 0; }
+    if (n > m) { WFAIL("count-exceeds-capacity", "num %zu > mem %zu", n, m); return 0; }
+    if (n != g->num) { WFAIL("count", "library holds %zu elements, model %zu (element size %zu)", n, g->num, z); return 0; }
+    if (n && !p) { WFAIL("null-storage", "num %zu but storage pointer is null", n); return 0; }
+    for (size_t i = 0; i < n; ++i)
+    {
+        size_t const k = w_diff(g, p + i * z, g->id[i]);
+        if (k < z)
+        {
+            WFAIL("contents", "element %zu of %zu differs from the model from byte %zu of %zu on (mem %zu): lib %02x model %02x", i, n, k, z, m, p[i * z + k], g->img[k]);
+            return 0;
+        }
+    }
+    VF_ADD("wide-bytes-compared", n * z);
+    VF_MAX("wide-max-element-size", (double)z);
+    return 1;
+}
+static int w_owned(wide *g, void *ret, char const *what)
+{
+    seq *s = g->h;
+    unsigned char *p = L_ptr(s), *q = (unsigned char *)ret;
+    size_t m = L_mem(s), z = L_siz(s);
+    VF_COUNT("wide-returned-pointer-inside-owned-storage");
+    if (!p || q < p || q + z > p + m * z || (size_t)(q - p) % z)
+    {
+        WFAIL("returned-ptr-outside-storage", "%s: pointer %p, storage [%p, %p) element size %zu", what, ret, (void *)p, (void *)(p + m * z), z);
+        return 0;
+    }
+    return 1;
+}
+
+/* destructor that verifies which element it is handed */
+static struct
+{
+    wide *g;
+    size_t next, calls, expect, bad, bad_call, bad_byte;
+    int dir;
+} WD;
+static void w_dtor(void *p)
+{
+    if (WD.calls < WD.expect && WD.next < WD.g->num)
+    {
+        size_t const k = w_diff(WD.g, (unsigned char const *)p, WD.g->id[WD.next]);
+        if (k < WD.g->siz)
+        {
+            if (!WD.bad) { WD.bad_call = WD.calls; WD.bad_byte = k; }
+            ++WD.bad;
+        }
+        WD.next += (size_t)WD.dir;
+    }
+    ++WD.calls;
+}
+static void wd_arm(wide *g, size_t first, int dir, size_t expect)
+{
+    memset(&WD, 0, sizeof(WD));
+    WD.g = g;
+    WD.next = first;
+    WD.dir = dir;
+    WD.expect = expect;
+}
+static void wd_judge(char const *what)
+{
+    VF_COUNT("wide-destroys-each-dropped-element-once-in-order");
+    if (WD.calls != WD.expect) { WFAIL("dtor-call-count", "%s: %zu destructor calls for %zu dropped elements", what, WD.calls, WD.expect); }
+    else if (WD.bad) { WFAIL("dtor-wrong-element", "%s: %zu of %zu destructor calls got different bytes (first: call %zu, from byte %zu on)", what, WD.bad, WD.calls, WD.bad_call, WD.bad_byte); }
+}
+
+static void w_new(wide *g, seq *h, int is_buf, size_t siz, size_t cap, int by_ctor)
+{
+    memset(g, 0, sizeof(*g));
+    memset(h, 0, sizeof(*h));
+    g->h = h;
+    g->siz = siz;
+    g->img = (unsigned char *)malloc(siz);
+    if (!g->img) { fprintf(stderr, "h_seq: out of memory for the wide model\n"); exit(2); }
+    h->is_buf = is_buf;
+    h->siz = siz;
+    h->by_ctor = by_ctor;
+    opname = "new";
+    if (is_buf && by_ctor)
+    {
+        vf_log("W a_buf_ctor(storage of %zu bytes, %zu, %zu)", sizeof(a_buf) + siz * cap, siz, cap);
+        h->b = (a_buf *)malloc(sizeof(a_buf) + siz * cap); /* exact size: header + payload */
+        a_buf_ctor(h->b, siz, cap);
+    }
+    else if (is_buf)
+    {
+        vf_log("W a_buf_new(%zu, %zu)", siz, cap);
+        h->b = a_buf_new(siz, cap);
+        if (!h->b) { WFAIL("unexpected-null", "a_buf_new(%zu, %zu) failed", siz, cap); return; }
+    }
+    else if (by_ctor)
+    {
+        vf_log("W a_vec_ctor(%zu)", siz);
+        h->v = (a_vec *)malloc(sizeof(a_vec));
+        memset(h->v, 0xA5, sizeof(a_vec));
+        a_vec_ctor(h->v, siz);
+    }
+    else
+    {
+        vf_log("W a_vec_new(%zu)", siz);
+        h->v = a_vec_new(siz);
+        if (!h->v) { WFAIL("unexpected-null", "a_vec_new(%zu) failed", siz); return; }
+    }
+    if (is_buf && a_buf_mem(h->b) != cap) { WFAIL("capacity", "mem %zu after construction with %zu", a_buf_mem(h->b), cap); return; }
+    w_check(g);
+}
+
+static void w_die(wide *g)
+{
+    seq *s = g->h;
+    if (!s) { return; }
+    if (!wide_dead && (s->v || s->b))
+    {
+        size_t const num = g->num;
+        opname = "die";
+        vf_log("W %s %s (num %zu mem %zu)", KN, s->by_ctor ? "dtor" : "die", num, L_mem(s));
+        wd_arm(g, num ? num - 1 : 0, -1, num);
+        if (s->by_ctor && s->is_buf) { a_buf_dtor(s->b, w_dtor); }
+        else if (s->by_ctor) { a_vec_dtor(s->v, w_dtor); }
+        else if (s->is_buf) { a_buf_die(s->b, w_dtor); }
+        else { a_vec_die(s->v, w_dtor); }
+        ++vf.evals;
+        wd_judge("die");
+        if (s->by_ctor) { free(s->is_buf ? (void *)s->b : (void *)s->v); }
+    }
+    else if (s->v || s->b)
+    {
+        /* after a failed clause: the blocks are released without judging anything (a leak report would only repeat the finding) */
+        if (s->by_ctor && s->is_buf) { a_buf_dtor(s->b, NULL); }
+        else if (s->by_ctor) { a_vec_dtor(s->v, NULL); }
+        else if (s->is_buf) { a_buf_die(s->b, NULL); }
+        else { a_vec_die(s->v, NULL); }
+        if (s->by_ctor) { free(s->is_buf ? (void *)s->b : (void *)s->v); }
+    }
+    free(g->img);
+    g->img = NULL;
+    s->v = NULL;
+    s->b = NULL;
+}
+
+/* check: 1 = complete comparison after the call, 0 = returned slot and header only (filler pushes) */
+static void w_push(wide *g, vf_rng *r, int where, size_t idx, int check)
+{
+    seq *s = g->h;
+    size_t const num = g->num, mem = L_mem(s), z = g->siz;
+    uint32_t const id = (uint32_t)vf_u64(r);
+    size_t eff;
+    void *p;
+    if (wide_dead || num + 1 >= WMAXE) { return; }
+    opname = where == 0 ? "push_back" : where == 1 ? "push_fore" : "insert";
+    vf_log("W %s %s idx=%zu id=%08x (num %zu mem %zu siz %zu)", KN, opname, idx, id, num, mem, z);
+    p = where == 0 ? L_push_back(s) : where == 1 ? L_push_fore(s) : L_insert(s, idx);
+    ++vf.evals;
+    if (s->is_buf && num >= mem)
+    {
+        VF_COUNT("wide-buf-refuses-when-full");
+        if (p) { WFAIL("accepted-although-full", "returned %p with num == mem == %zu", p, mem); return; }
+        w_check(g);
+        return;
+    }
+    if (!p) { WFAIL("unexpected-null", "returned null with num %zu mem %zu", num, mem); return; }
+    if (!w_owned(g, p, "new element")) { return; }
+    if (L_mem(s) < mem) { WFAIL("capacity-shrank", "mem %zu before, %zu after", mem, L_mem(s)); return; }
+    eff = where == 0 ? num : where == 1 ? 0 : (idx < num ? idx : num);
+    if ((size_t)((unsigned char *)p - L_ptr(s)) != eff * z)
+    {
+        WFAIL("returned-ptr-wrong-slot", "slot %zu returned for position %zu (num %zu)", (size_t)((unsigned char *)p - L_ptr(s)) / z, eff, num);
+        return;
+    }
+    w_render(z, id, g->img);
+    memcpy(p, g->img, z);
+    memmove(g->id + eff + 1, g->id + eff, (num - eff) * sizeof(uint32_t));
+    g->id[eff] = id;
+    g->num = num + 1;
+    VF_COUNT("wide-push-insert");
+    if (check)
+    {
+        w_check(g);
+        wcell(opname, g, eff == 0 ? 0 : eff >= num ? 2 : 1);
+    }
+    else if (L_num(s) != g->num) { WFAIL("count", "library holds %zu elements, model %zu", L_num(s), g->num); }
+}
+
+static void w_pull(wide *g, int where, size_t idx)
+{
+    seq *s = g->h;
+    size_t const num = g->num, mem = L_mem(s), z = g->siz;
+    int const full = L_num(s) == mem;
+    size_t at, slot, k;
+    void *p;
+    if (wide_dead) { return; }
+    opname = where == 0 ? "pull_back" : where == 1 ? "pull_fore" : "remove";
+    vf_log("W %s %s idx=%zu (num %zu mem %zu siz %zu, %s)", KN, opname, idx, num, mem, z, full ? "full" : "spare");
+    p = where == 0 ? L_pull_back(s) : where == 1 ? L_pull_fore(s) : L_remove(s, idx);
+    ++vf.evals;
+    if (num == 0)
+    {
+        if (p) { WFAIL("non-null-from-empty", "returned %p from an empty container", p); return; }
+        w_check(g);
+        return;
+    }
+    at = where == 0 ? num - 1 : where == 1 ? 0 : (idx < num - 1 ? idx : num - 1);
+    if (!p) { WFAIL("unexpected-null", "returned null with %zu elements", num); return; }
+    if (!w_owned(g, p, "removed element")) { return; }
+    VF_COUNT("wide-removed-element-intact-and-past-live-range");
+    slot = (size_t)((unsigned char *)p - L_ptr(s)) / z;
+    if (slot < num - 1) { WFAIL("removed-ptr-overlaps-live-element", "removed element parked at slot %zu but %zu elements remain", slot, num - 1); return; }
+    k = w_diff(g, (unsigned char const *)p, g->id[at]);
+    if (k < z)
+    {
+        WFAIL("removed-element-not-intact", "bytes behind the returned pointer are not element %zu of %zu (%s, element size %zu): first wrong byte at offset %zu, lib %02x model %02x",
+              at, num, full ? "exactly full" : "spare slot", z, k, ((unsigned char const *)p)[k], g->img[k]);
+        return;
+    }
+    memmove(g->id + at, g->id + at + 1, (num - at - 1) * sizeof(uint32_t));
+    g->num = num - 1;
+    if (where != 0 && at < num - 1)
+    {
+        if (full) { VF_COUNT("wide-remove-path-full"); } else { VF_COUNT("wide-remove-path-spare"); }
+        if (full && z >= 4096) { VF_COUNT("wide-remove-path-full-element-ge-4096-bytes"); }
+    }
+    w_check(g);
+    wcell(opname, g, (at == 0 ? 0 : at >= num - 2 ? 2 : 1) + 4 * full);
+}
+
+static void w_store(wide *g, vf_rng *r, size_t idx, size_t cnt, int use_copy)
+{
+    seq *s = g->h;
+    size_t const num = g->num, mem = L_mem(s), z = g->siz, at = idx < num ? idx : num;
+    uint32_t ids[4];
+    unsigned char *src;
+    int rc;
+    if (wide_dead || cnt > 4 || num + cnt >= WMAXE) { return; }
+    g_siz = z;
+    opname = "store";
+    src = (unsigned char *)malloc(cnt * z ? cnt * z : 1); /* exact size: a read past the last element is an ASan report */
+    for (size_t k = 0; k < cnt; ++k)
+    {
+        ids[k] = (uint32_t)vf_u64(r);
+        w_render(z, ids[k], src + k * z);
+    }
+    vf_log("W %s store idx=%zu n=%zu copy=%d (num %zu mem %zu siz %zu)", KN, idx, cnt, use_copy, num, mem, z);
+    rc = s->is_buf ? a_buf_store(s->b, idx, src, cnt, use_copy ? copy_elem : NULL) : a_vec_store(s->v, idx, src, cnt, use_copy ? copy_elem : NULL);
+    free(src);
+    ++vf.evals;
+    VF_COUNT("wide-store");
+    if (s->is_buf && num + cnt > mem)
+    {
+        VF_COUNT("wide-buf-refuses-when-full");
+        if (rc == A_SUCCESS) { WFAIL("accepted-although-full", "store of %zu into num %zu mem %zu returned success", cnt, num, mem); }
+    }
+    else if (rc != A_SUCCESS) { WFAIL("unexpected-error", "rc %d for store of %zu at %zu (num %zu mem %zu)", rc, cnt, idx, num, mem); }
+    else
+    {
+        memmove(g->id + at + cnt, g->id + at, (num - at) * sizeof(uint32_t));
+        memcpy(g->id + at, ids, cnt * sizeof(uint32_t));
+        g->num = num + cnt;
+    }
+    w_check(g);
+    wcell(opname, g, (int)cnt + 8 * (idx == 0 ? 0 : idx >= num ? 2 : 1));
+}
+
+static void w_erase(wide *g, size_t idx, size_t cnt, int with_dtor)
+{
+    seq *s = g->h;
+    size_t const num = g->num, n = idx < num ? (cnt < num - idx ? cnt : num - idx) : 0;
+    int rc;
+    if (wide_dead) { return; }
+    opname = "erase";
+    vf_log("W %s erase idx=%zu n=%zu dtor=%d (num %zu mem %zu siz %zu)", KN, idx, cnt, with_dtor, num, L_mem(s), g->siz);
+    wd_arm(g, idx, 1, with_dtor ? n : 0);
+    rc = s->is_buf ? a_buf_erase(s->b, idx, cnt, with_dtor ? w_dtor : NULL) : a_vec_erase(s->v, idx, cnt, with_dtor ? w_dtor : NULL);
+    ++vf.evals;
+    VF_COUNT("wide-erase");
+    if (idx >= num)
+    {
+        if (rc != A_OBOUNDS) { WFAIL("out-of-range-not-reported", "idx %zu >= num %zu returned %d", idx, num, rc); }
+        if (WD.calls) { WFAIL("dtor-called-out-of-range", "%zu destructor calls", WD.calls); }
+    }
+    else
+    {
+        if (rc != A_SUCCESS) { WFAIL("unexpected-error", "rc %d for idx %zu n %zu num %zu", rc, idx, cnt, num); return; }
+        if (with_dtor) { wd_judge("erase"); }
+        memmove(g->id + idx, g->id + idx + n, (num - idx - n) * sizeof(uint32_t));
+        g->num = num - n;
+    }
+    w_check(g);
+    wcell(opname, g, (int)(n > 3 ? 3 : n) + 4 * (idx == 0 ? 0 : idx + n >= num ? 2 : 1));
+}
+
+/* whole-vector swap with the partner: the wide contents are worked on under the other handle, then swapped back */
+static void w_swap(wide *a, wide *b, vf_rng *r)
+{
+    for (int pass = 0; pass < 2 && !wide_dead; ++pass)
+    {
+        wide t;
+        seq *ha = a->h, *hb = b->h;
+        opname = "swap";
+        vf_log("W vec swap (num %zu siz %zu <-> num %zu siz %zu)", a->num, a->siz, b->num, b->siz);
+        a_vec_swap(ha->v, hb->v);
+        ++vf.evals;
+        VF_COUNT("wide-vec-swap");
+        t = *a;
+        *a = *b;
+        *b = t;
+        a->h = ha;
+        b->h = hb;
+        w_check(a);
+        w_check(b);
+        if (pass == 0)
+        {
+            w_push(b, r, 2, b->num / 2, 1);
+            w_pull(b, 1, 0);
+        }
+    }
+}
+
+/* exactly full (num == mem) / at least one spare slot: remove and pull_fore have a code path for each */
+static void w_make_full(wide *g, vf_rng *r)
+{
+    seq *s = g->h;
+    size_t const mem = L_mem(s);
+    if (wide_dead || mem + 1 >= WMAXE || mem - L_num(s) > 16) { return; }
+    while (!wide_dead && L_num(s) < mem) { w_push(g, r, 0, 0, 0); }
+    opname = "push_back";
+    w_check(g);
+}
+static void w_make_spare(wide *g)
+{
+    seq *s = g->h;
+    if (wide_dead || L_num(s) < L_mem(s)) { return; }
+    if (s->is_buf) { w_pull(g, 0, 0); }
+    else
+    {
+        opname = "setm";
+        vf_log("W vec setm %zu (num %zu mem %zu)", g->num + 1, g->num, L_mem(s));
+        if (a_vec_setm(s->v, g->num + 1) != A_SUCCESS) { WFAIL("unexpected-error", "a_vec_setm(%zu) failed", g->num + 1); return; }
+        w_check(g);
+    }
+}
+
+static size_t w_index(vf_rng *r, size_t num)
+{
+    switch ((int)vf_below(r, 8))
+    {
+    case 0: return 0;
+    case 1: return num > 1 ? 1 : 0;
+    case 2: return num / 2;
+    case 3: return num > 2 ? num - 2 : 0;
+    case 4: return num ? num - 1 : 0;
+    case 5: return num;
+    case 6: return SIZE_MAX;
+    default: return num ? (size_t)vf_below(r, num) : 0;
+    }
+}
+
+static void wide_history(vf_rng *r, int kind, size_t siz, int nops)
+{
+    int const is_buf = kind < 2, by_ctor = kind == 1 || (kind == 2 && vf_chance(r, 1, 2));
+    size_t const cap = 10 + (size_t)vf_below(r, 5);
+    wide *g = &W[0];
+    KN = is_buf ? "buf" : "vec";
+    wide_dead = 0;
+    memset(W, 0, sizeof(W));
+    w_new(g, &WS[0], is_buf, siz, cap, by_ctor);
+    if (!is_buf && !wide_dead)
+    {
+        /* the partner for the whole-vector swap: another width, a few elements */
+        static size_t const ps[] = {1, 24, 1030, 3001};
+        w_new(&W[1], &WS[1], 0, ps[vf_below(r, 4)], 0, (int)vf_below(r, 2));
+        for (int i = 0, k = (int)vf_below(r, 4); i < k; ++i) { w_push(&W[1], r, 0, 0, 1); }
+    }
+    /* a dozen elements through all three insertion calls (the buffer: until it is exactly full) */
+    for (size_t i = 0; i < cap && !wide_dead; ++i)
+    {
+        int const where = (int)vf_below(r, 3);
+        w_push(g, r, where, w_index(r, g->num), 1);
+    }
+    for (int op = 0; op < nops && !wide_dead; ++op)
+    {
+        int const what = (int)vf_below(r, is_buf ? 10 : 11);
+        switch (what)
+        {
+        case 0: case 1: case 2: case 3: case 4:
+            /* removal in a forced capacity state */
+            if (vf_chance(r, 1, 2)) { w_make_full(g, r); } else { w_make_spare(g); }
+            if (what == 0) { w_pull(g, 0, 0); }
+            else if (what == 1) { w_pull(g, 1, 0); }
+            else { w_pull(g, 2, w_index(r, g->num)); }
+            break;
+        case 5: w_push(g, r, (int)vf_below(r, 2), 0, 1); break;
+        case 6: w_push(g, r, 2, w_index(r, g->num), 1); break;
+        case 7: case 8:
+            w_store(g, r, w_index(r, g->num), 1 + (size_t)vf_below(r, 3), (int)vf_below(r, 2));
+            break;
+        case 9:
+            w_erase(g, w_index(r, g->num), vf_chance(r, 1, 5) ? SIZE_MAX : 1 + (size_t)vf_below(r, 3), (int)vf_below(r, 2));
+            break;
+        default: w_swap(g, &W[1], r); break;
+        }
+        /* the count stays about a dozen */
+        while (!wide_dead && g->num > 20) { w_erase(g, w_index(r, g->num - 4), 4, (int)vf_below(r, 2)); }
+        while (!wide_dead && g->num < 6) { w_push(g, r, (int)vf_below(r, 3), w_index(r, g->num), 1); }
+    }
+    w_die(&W[0]);
+    if (!is_buf) { w_die(&W[1]); }
+}
+
+static void wide_case(uint64_t c, vf_rng *r)
+{
+    static size_t const widths[] = {100, 257, 1000, 1023, 1024, 1025, 1500, 2047, 2048, 2049, 4095, 4096, 4097, 5000,
+                                    8192, 8193, 16384, 16385, 32769, 65536, 65537, 70001};
+    size_t const nw = sizeof(widths) / sizeof(widths[0]);
+    uint64_t const k = c / (uint64_t)(vf.tier ? WIDE_MOD_THOROUGH : WIDE_MOD_QUICK);
+    size_t const slot = (size_t)(k % (nw + 4));
+    size_t siz;
+    int nops;
+    /* the listed widths in turn (every one of them in both tiers), then four random ones: any width 41..9000 or 2^j-1 .. 2^j+1, j = 10..16 */
+    if (slot < nw) { siz = widths[slot]; }
+    else if (vf_chance(r, 1, 3)) { siz = ((size_t)1 << (10 + vf_below(r, 7))) - 1 + (size_t)vf_below(r, 3); }
+    else { siz = 41 + (size_t)vf_below(r, 8960); }
+    nops = siz > 40000 ? 16 : siz > 10000 ? 24 : 48;
+    if (!wide_sampled)
+    {
+        /* one sample of this case class per worker, kept in the last slot if the other histories already filled the list */
+        int const keep = vf.nsamples;
+        wide_sampled = 1;
+        if (keep >= 3) { vf.nsamples = 2; }
+        vf_sample("wide history %" PRIu64 ": element size %zu; a_buf by new, a_buf by ctor in an exact-size block, a_vec in turn, about a dozen elements whose every byte depends on (id, position), %d random operations each, removals in forced exactly-full / spare state, removed element and all remaining bytes compared after every call",
+                  c, siz, nops);
+        if (keep >= 3) { vf.nsamples = keep; }
+    }
+    for (int kind = 0; kind < 3; ++kind)
+    {
+        vf_log("W kind %d width %zu", kind, siz);
+        wide_history(r, kind, siz, nops);
+    }
+    VF_COUNT("wide-case");
+    if (siz > 1024) { VF_COUNT("wide-case-wider-than-1024"); }
+    if (siz > 65536) { VF_COUNT("wide-case-wider-than-65536"); }
+}
+
+static int is_wide_case(uint64_t c)
+{
+    return c % (vf.tier ? WIDE_MOD_THOROUGH : WIDE_MOD_QUICK) == WIDE_RES;
+}
+
 static int is_large_case(uint64_t c)
 {
     return c % (vf.tier ? LARGE_MOD_THOROUGH : LARGE_MOD_QUICK) == LARGE_RES;
@@ -1713,6 +2243,7 @@ static void vf_case(uint64_t c, vf_rng *r)
     surf_on = 0;
     form_used = NULL;
     if (is_large_case(c)) { large_case(c, r); }
+    else if (is_wide_case(c)) { wide_case(c, r); }
     else
     {
         /* macro / alias forms of the calls and the surface walks: small case class only, choices from a stream of their own */
